@@ -2,7 +2,7 @@
 (* Family "gendet": a configuration with several entries in every option, the same request repeated and with permuted YAML / CLI entry orders.  Serves C14. *)
 EXTENDS GenShapes, TLC, Json
 CONSTANTS MCDeep, MCLong
-VARIABLES sh, M, obj, tf, dg, pn, pc, hist, viol, aux
+VARIABLES sh, M, Mi, obj, tf, dg, pn, pc, hist, viol, aux
 MCShapes == GenDetShapes(MCLong)
 MCProps == {"C14"}
 MCScript == <<>>
